@@ -6,6 +6,6 @@ set -eu
 dir="$1"
 git -C /repo worktree add --detach "$dir" HEAD >/dev/null 2>&1
 cd "$dir"
-find . -name verif_contracts.go -print0 | xargs -0 -r git rm -q
+find . \( -name verif_contracts.go -o -name verif_harness.go \) -print0 | xargs -0 -r git rm -q
 git -c user.name=builder -c user.email=builder@example.com commit -qm "scratch: plain tree" || true
 echo "$dir ready at $(git rev-parse --short HEAD)"
